@@ -106,6 +106,7 @@ type Obligation struct {
 	plan     *replayPlan
 	small    []*Term // optional extra constraints asking for a small (replayable) model
 	override []*Term
+	parts    []*Term // conjuncts solved as separate queries (one per return statement)
 	useOverride bool
 }
 
